@@ -1,3 +1,5 @@
 import PfVerif.Audit.Tool
 import PfVerif.Props.C17
+import PfVerif.Lemmas.C17System
 #audit_module PfVerif.Props.C17
+#audit_module_ns PfVerif.Lemmas.C17System PfVerif.C17System
